@@ -170,11 +170,35 @@ class Tr:
                 if e.attr in self.spec.get("class_consts", {}):
                     return lit_int(self.spec["class_consts"][e.attr])
                 raise Unsupported(f"attribute self.{e.attr} is not an input")
+            if isinstance(e.value, ast.Name) and e.value.id in st and st[e.value.id].kind == "obj":
+                key = e.value.id + "." + e.attr
+                if key in st:
+                    return st[key]
+                raise Unsupported("attribute of a new object read before it is set: " + key)
+            if isinstance(e.value, ast.Attribute) and isinstance(e.value.value, ast.Name) \
+                    and e.value.value.id == self.spec.get("class_name"):
+                nested = self.spec.get("nested_consts", {}).get(e.value.attr, {})
+                if e.attr in nested:
+                    return lit_int(nested[e.attr])
             if isinstance(e.value, ast.Attribute) and isinstance(e.value.value, ast.Name) and e.value.value.id in ("self", "cls"):
                 nested = self.spec.get("nested_consts", {}).get(e.value.attr, {})
                 if e.attr in nested:
                     return lit_int(nested[e.attr])
             raise Unsupported("attribute " + ast.dump(e)[:60])
+        if isinstance(e, ast.IfExp) and isinstance(e.test, ast.Compare) and len(e.test.ops) == 1 \
+                and isinstance(e.test.ops[0], (ast.IsNot, ast.Is)) and isinstance(e.test.comparators[0], ast.Constant) \
+                and e.test.comparators[0].value is None:
+            # `v if v is not None else d`  /  `d if v is None else v`
+            some_branch, none_branch = (e.body, e.orelse) if isinstance(e.test.ops[0], ast.IsNot) else (e.orelse, e.body)
+            if ast.dump(some_branch) == ast.dump(e.test.left):
+                v = self.expr(e.test.left, st, sc)
+                d = self.expr(none_branch, st, sc)
+                if v.kind.startswith("opt:"):
+                    k = v.kind[4:]
+                    dt = {"int": to_int_term, "fix": to_fix_term, "bool": lambda x: x.lean if x.kind == "bool" else truthy(x)}[k](d)
+                    return V(k, f"({v.lean}.getD {paren(dt)})")
+                if v.kind in ("int", "bool", "fix", "bytes"):
+                    return v                     # never None: the default is dead
         if isinstance(e, ast.IfExp):
             test, swapped = canon_test(e.test)
             if swapped:
@@ -192,6 +216,18 @@ class Tr:
             if all(v.kind == "bool" for v in vals):
                 op = " && " if isinstance(e.op, ast.And) else " || "
                 return V("bool", "(" + op.join(paren(v.lean) for v in vals) + ")")
+            if isinstance(e.op, ast.Or) and len(vals) == 2 and vals[0].kind.startswith("opt:"):
+                # `v or d` with an optional v: v when it is truthy (hence not None), else d
+                a, d = vals
+                k = a.kind[4:]
+                dt = {"int": to_int_term, "fix": to_fix_term, "bool": lambda x: x.lean if x.kind == "bool" else truthy(x)}[k](d)
+                zero = {"int": "0", "fix": "0", "bool": "false"}[k]
+                return V(k, f"(if decide ({a.lean}.getD {zero} ≠ {zero}) then {a.lean}.getD {zero} else {paren(dt)})")
+            if isinstance(e.op, ast.Or) and len(vals) == 2 and vals[0].kind in ("int", "fix") and vals[1].kind in ("int", "fix"):
+                a, d = vals
+                if a.kind == "fix" or d.kind == "fix":
+                    return V("fix", f"(if decide ({to_fix_term(a)} ≠ 0) then {to_fix_term(a)} else {to_fix_term(d)})")
+                return V("int", f"(if decide ({a.lean} ≠ 0) then {a.lean} else {to_int_term(d)})")
             raise Unsupported("and/or over non-bool operands outside a condition")
         if isinstance(e, ast.UnaryOp):
             v = self.expr(e.operand, st, sc)
@@ -441,6 +477,14 @@ class Tr:
         left = self.expr(e.left, st, sc)
         for op, rhs in zip(e.ops, e.comparators):
             right = self.expr(rhs, st, sc)
+            if isinstance(op, (ast.Is, ast.IsNot)) and right.kind == "none" and left.kind.startswith("opt:"):
+                parts.append(f"{paren(left.lean)}.isNone" if isinstance(op, ast.Is) else f"{paren(left.lean)}.isSome")
+                left = right
+                continue
+            if isinstance(op, (ast.Is, ast.IsNot)) and right.kind == "none" and left.kind in ("int", "bool", "fix", "bytes"):
+                parts.append("false" if isinstance(op, ast.Is) else "true")
+                left = right
+                continue
             if isinstance(op, (ast.Is, ast.IsNot)) and right.kind == "none" and left.kind == "optbytes":
                 parts.append(f"{paren(left.lean)}.isNone" if isinstance(op, ast.Is) else f"{paren(left.lean)}.isSome")
                 left = right
@@ -494,6 +538,15 @@ class Tr:
             r = self.call_native(e, st, sc)
             if r is not None:
                 return r
+        if isinstance(f, ast.Name) and f.id in st and st[f.id].kind == "localfn":
+            params, body = st[f.id].items
+            if len(params) != len(args) or e.keywords:
+                raise Unsupported("call of local function " + f.id)
+            inner = dict(st)
+            for p_, a in zip(params, args):
+                inner[p_] = self.expr(a, st, sc)
+            # the argument names are substituted syntactically where the body tests them against None
+            return self.expr(self.subst(body, dict(zip(params, args))), st, sc)
         if isinstance(f, ast.Name):
             if f.id == "bool" and len(args) == 1:
                 return V("bool", truthy(self.expr(args[0], st, sc)))
@@ -554,6 +607,14 @@ class Tr:
                                         "bool": lambda v: v.lean if v.kind == "bool" else truthy(v)}[k](v)))
                 return V(rkind, f"{lean_name} " + " ".join(terms))
         raise Unsupported("call " + ast.unparse(e)[:60])
+
+    @staticmethod
+    def subst(node, mapping):
+        class T(ast.NodeTransformer):
+            def visit_Name(self, n):
+                return mapping.get(n.id, n) if isinstance(n.ctx, ast.Load) else n
+        import copy
+        return T().visit(copy.deepcopy(node))
 
     def call_native(self, e, st, sc):
         f, args = e.func, e.args
@@ -681,6 +742,24 @@ class Tr:
             if isinstance(s, ast.Expr) and isinstance(s.value, ast.Constant):
                 continue   # docstring / stray constant
             if isinstance(s, ast.Pass) or is_log_call(s):
+                continue
+            if self.spec.get("stop_at_await") and any(isinstance(n, ast.Await) for n in ast.walk(s)):
+                return self.finish(st, None, sc)          # the translated part ends where the first await begins
+            if isinstance(s, ast.If) and not s.orelse and all(is_log_call(b) for b in s.body):
+                continue                                   # a warning: no effect on the result
+            if isinstance(s, ast.FunctionDef) and len(s.body) == 1 and isinstance(s.body[0], ast.Return) \
+                    and not s.args.vararg and not s.args.kwarg:
+                st[s.name] = V("localfn", items=([a.arg for a in s.args.args], s.body[0].value))
+                continue
+            if isinstance(s, ast.Assign) and isinstance(s.value, ast.Call) and isinstance(s.value.func, ast.Name) \
+                    and s.value.func.id in self.spec.get("objects", {}) and not s.value.args \
+                    and len(s.targets) == 1 and isinstance(s.targets[0], ast.Name):
+                st[s.targets[0].id] = V("obj", s.targets[0].id)
+                continue
+            if isinstance(s, ast.Assign) and len(s.targets) == 1 and isinstance(s.targets[0], ast.Attribute) \
+                    and isinstance(s.targets[0].value, ast.Name) and s.targets[0].value.id in st \
+                    and st[s.targets[0].value.id].kind == "obj":
+                st[s.targets[0].value.id + "." + s.targets[0].attr] = self.expr(s.value, st, sc)
                 continue
             if isinstance(s, ast.Assign):
                 v = self.expr(s.value, st, sc)
@@ -881,10 +960,11 @@ class Tr:
                 return self.as_opt(v, k[4:])
             t = {"int": to_int_term, "fix": to_fix_term}[k](v) if k != "bool" else v.lean
             return ("pure " + paren(t)) if self.effectful else t
-        if out[0] == "attrs":
+        if out[0] in ("attrs", "obj_attrs"):
             fields = []
+            prefix = "self." if out[0] == "attrs" else out[2] + "."
             for name, k in out[1]:
-                v = st.get("self." + name)
+                v = st.get(prefix + name)
                 if v is None:
                     raise Unsupported(f"attribute {name} is never assigned")
                 if k.startswith("opt:"):
@@ -911,6 +991,8 @@ class Tr:
                 st[name] = V("bytes", lean_name)
             elif k == "optbytes":
                 st[name] = V("optbytes", lean_name)
+            elif k.startswith("opt:"):
+                st[name] = V(k, lean_name)
             elif k == "bytes":
                 st[name] = V("bytesvar", lean_name)
             elif k == "ints":
@@ -958,7 +1040,7 @@ def find_func(tree, qual):
         if cls is None:
             return None, None
         body = cls.body
-    fn = next((n for n in body if isinstance(n, ast.FunctionDef) and n.name == parts[-1]), None)
+    fn = next((n for n in body if isinstance(n, (ast.FunctionDef, ast.AsyncFunctionDef)) and n.name == parts[-1]), None)
     return fn, cls
 
 
@@ -1094,6 +1176,23 @@ SPECS = [
          init_none=STATE_ATTRS, out=("attrs", STATE_ATTRS), effectful=True, rtype="R StateAttrs",
          generated={"_parse_temperature": ("parseTemperature", ["int", "fix", "bool"], "opt:fix")},
          model="(Model.parseState payload).map StateAttrs.ofModel"),
+    dict(name="applyCommand", file="msmart/device/AC/device.py", func="AirConditioner.apply",
+         inputs=[("self._beep_on", "bool"), ("self._power_state", "bool"), ("self._target_temperature", "fix"),
+                 ("self._operational_mode", "int"), ("self._fan_speed", "int"), ("self._swing_mode", "int"),
+                 ("self._eco", "bool"), ("self._turbo", "bool"), ("self._freeze_protection", "opt:bool"), ("self._sleep", "bool"),
+                 ("self._fahrenheit_unit", "bool"), ("self._follow_me", "bool"), ("self._purifier", "bool"),
+                 ("self._target_humidity", "opt:int"), ("self._aux_mode", "int")],
+         stop_at_await=True, objects={"SetStateCommand": True},
+         out=("obj_attrs", [("beep_on", "bool"), ("power_on", "bool"), ("target_temperature", "fix"), ("operational_mode", "int"),
+                            ("fan_speed", "int"), ("swing_mode", "int"), ("eco", "bool"), ("turbo", "bool"),
+                            ("freeze_protection", "bool"), ("sleep", "bool"), ("fahrenheit", "bool"), ("follow_me", "bool"),
+                            ("purifier", "bool"), ("target_humidity", "int"), ("aux_heat", "bool"),
+                            ("independent_aux_heat", "bool")], "cmd"),
+         rtype="ApplyCmd",
+         model="ApplyCmd.ofModel (Model.setStateOfDev { beep := _beep_on, power := _power_state, tempCenti := _target_temperature, "
+               "mode := _operational_mode.toNat, fan := _fan_speed, swing := _swing_mode.toNat, eco := _eco, turbo := _turbo, "
+               "freeze := _freeze_protection, sleep := _sleep, fahrenheit := _fahrenheit_unit, followMe := _follow_me, "
+               "purifier := _purifier, humidity := _target_humidity.map Int.toNat, auxMode := _aux_mode.toNat })"),
 ] + LAN_SPECS
 
 
@@ -1124,6 +1223,7 @@ def translate_all(repo=None):
             sp["class_consts"] = cc
             sp["nested_consts"] = {n.name: class_int_consts(n) for n in (cls.body if cls is not None else [])
                                    if isinstance(n, ast.ClassDef)}
+            sp["class_name"] = cls.name if cls is not None else None
             argnames = [a.arg for a in fn.args.args]
             if argnames and argnames[0] in ("self", "cls"):
                 argnames = argnames[1:]
@@ -1155,8 +1255,9 @@ def translate_all(repo=None):
             defs.append((spec, None, False))
     out = []
     out.append("-- GENERATED by harness/pytrans.py from the current source text of /repo. DO NOT EDIT.\n")
-    out.append("import Msmart.Py.Ops\nimport Msmart.Model.Response\nimport Msmart.Model.PacketV3\nimport Msmart.Model.LanInt\nimport Msmart.Generated.Crc8Table\n\nset_option linter.unusedVariables false\n\nnamespace Msmart.Generated.Codec\nopen Msmart\n\n")
+    out.append("import Msmart.Py.Ops\nimport Msmart.Model.Response\nimport Msmart.Model.Device\nimport Msmart.Model.PacketV3\nimport Msmart.Model.LanInt\nimport Msmart.Generated.Crc8Table\n\nset_option linter.unusedVariables false\n\nnamespace Msmart.Generated.Codec\nopen Msmart\n\n")
     out.append(STATE_STRUCT)
+    out.append(APPLY_STRUCT)
     for spec in SPECS:
         for _tn, lean_tn in (spec.get("table_names") or {}).items():
             if lean_tn not in tables_out:      # not readable from the source: the table the public function steps through
@@ -1176,6 +1277,34 @@ def translate_all(repo=None):
     out.append("end Msmart.Generated.Codec\n")
     return "".join(out), report
 
+
+APPLY_STRUCT = """/-- the fields `apply()` assigns to its `SetStateCommand` before sending it -/
+structure ApplyCmd where
+  beep_on : Bool
+  power_on : Bool
+  target_temperature : Int
+  operational_mode : Int
+  fan_speed : Int
+  swing_mode : Int
+  eco : Bool
+  turbo : Bool
+  freeze_protection : Bool
+  sleep : Bool
+  fahrenheit : Bool
+  follow_me : Bool
+  purifier : Bool
+  target_humidity : Int
+  aux_heat : Bool
+  independent_aux_heat : Bool
+  deriving DecidableEq, Repr
+
+def ApplyCmd.ofModel (s : Model.SetState) : ApplyCmd :=
+  { beep_on := s.beep, power_on := s.power, target_temperature := s.tempCenti, operational_mode := s.mode, fan_speed := s.fan,
+    swing_mode := s.swing, eco := s.eco, turbo := s.turbo, freeze_protection := s.freeze, sleep := s.sleep,
+    fahrenheit := s.fahrenheit, follow_me := s.followMe, purifier := s.purifier, target_humidity := s.humidity,
+    aux_heat := s.auxHeat, independent_aux_heat := s.indepAuxHeat }
+
+"""
 
 STATE_STRUCT = """/-- attributes of a `StateResponse` after `_parse` (floats in hundredths) -/
 structure StateAttrs where
